@@ -706,9 +706,9 @@ def thread_scope():
 
 def plan(ctx, scale=1.0):
     quick = ctx.tier == 'quick'
-    n_serial = int((260 if quick else 2500) * ctx.boost * scale)
-    n_thread = int((160 if quick else 1800) * ctx.boost * scale)
-    n_proc = int((10 if quick else 60) * min(ctx.boost, 2) * scale)
+    n_serial = int((260 if quick else 3500) * ctx.boost * scale)
+    n_thread = int((160 if quick else 2500) * ctx.boost * scale)
+    n_proc = int((10 if quick else 80) * min(ctx.boost, 2) * scale)
     rng = ctx.rng
     gen = []
     for i in range(n_serial):
